@@ -21,8 +21,8 @@ Definition idf (l : list row) : list row := l.
 Lemma idf_perm : forall l, Permutation (idf l) l.
 Proof. intros; apply Permutation_refl. Qed.
 
-(* (a) bindparam() in DO UPDATE ... WHERE, RETURNING without sort_by_parameter_order: batched, every row is
-   judged with the first parameter set's value *)
+(* (a) bindparam() in DO UPDATE ... WHERE, RETURNING without sort_by_parameter_order: formerly batched with the
+   first parameter set's value (finding C56-where-bindparam-batched, fixed by e3b606f); now row at a time *)
 Definition wa_sa : list sa_clause :=
   [SAUpdate (STElems [TECol 0] None) [(KStr 3, EAtom (AExc 2))]
             (Some (Pred CLt (EAtom (ACol 2)) (EAtom (APar 0))))].
@@ -30,16 +30,13 @@ Definition wa_t : table := [[Some 1; Some 0; Some 1; Some 0]; [Some 2; Some 1; S
 Definition wa_ps : list prow :=
   [([Some 1; None; Some 5; None], [Some 9; None]); ([Some 2; None; Some 7; None], [Some 0; None])].
 
-Lemma where_bindparam_batched_refuted :
-  exists cls, spec_of w_cols wa_sa = Some cls /\ Forall sets_nodup cls /\ chain_ok wa_sa = true /\
-    existsb uses_literal_execute wa_sa = false /\
-    ~ res_equiv (exec_impl idf true false w_cols w_ixs wa_sa true false 1000 wa_t wa_ps)
-                (upsert_spec w_ixs cls wa_t wa_ps).
-Proof.
-  eexists. split; [vm_compute; reflexivity|]. split; [repeat constructor; simpl; intuition|].
-  split; [reflexivity|]. split; [reflexivity|].
-  intros H. vm_compute in H. destruct H as [H _]. discriminate H.
-Qed.
+Example where_bindparam_unsorted_ok :
+  exists cls, spec_of w_cols wa_sa = Some cls /\
+    batched false true false (length wa_ps) wa_sa = false /\
+    exec_impl idf true false w_cols w_ixs wa_sa true false 1000 wa_t wa_ps = upsert_spec w_ixs cls wa_t wa_ps /\
+    upsert_spec w_ixs cls wa_t wa_ps =
+      Ok ([[Some 1; Some 0; Some 1; Some 5]; [Some 2; Some 1; Some 2; Some 0]], [[Some 1; Some 0; Some 1; Some 5]]).
+Proof. eexists. split; [vm_compute; reflexivity|]. split; [reflexivity|]. split; vm_compute; reflexivity. Qed.
 
 (* the same executemany with sort_by_parameter_order=True is executed row by row and agrees *)
 Example where_bindparam_sorted_ok :
